@@ -793,22 +793,49 @@ Proof.
       intros x Hx Hin. cbn in Hin. destruct Hin as [<-|[]]. apply (Hnot (bs "event")); cbn; auto.
 Qed.
 
+Lemma NoDup_app_l : forall {A} (a b : list A), NoDup (a ++ b) -> NoDup a.
+Proof.
+  induction a as [|x a IH]; intros b H; [constructor|]. inversion H as [|? ? Hn Hd]; subst. constructor.
+  - intros Hin. apply Hn. apply in_or_app. now left.
+  - now apply (IH b).
+Qed.
+
 Lemma in_quantifier_keys_nodup : forall e, in_quantifier e = true -> NoDup (map key_name (e_keys e)).
 Proof.
   intros e H. destruct (in_quantifier_parts e H) as [_ [_ [_ [_ [Hk _]]]]].
   unfold fields_wf in Hk. apply andb_true_iff in Hk. destruct Hk as [_ Hk].
-  apply nodup_bytes_NoDup in Hk. rewrite <- (map_map uf_name to_snake) in Hk. apply NoDup_map_inv in Hk.
+  apply nodup_bytes_NoDup in Hk. unfold sp_field_scope in Hk. apply NoDup_app_l in Hk.
+  rewrite <- (map_map uf_name to_snake) in Hk. apply NoDup_map_inv in Hk.
   change (map key_name (e_keys e)) with (map (fun k => uf_name (k_def k)) (e_keys e)).
   rewrite <- (map_map k_def uf_name). exact Hk.
+Qed.
+
+Lemma reserved_free_parts : forall e, reserved_free e = true ->
+  forallb (fun k => negb (key_in_path k && existsb (bytes_eqb (to_snake (key_name k))) [bs "page"; bs "query"]))
+          (e_keys e) = true
+  /\ forallb (fun k => negb (existsb (bytes_eqb (key_name k)) [bs "metadata"; bs "data"; bs "status"; bs "event"]))
+             (e_keys e) = true
+  /\ forallb (fun s => forallb (fun u => negb (bytes_eqb (to_snake (uf_name u)) (bs "upsert"))) (s_fields s))
+             (e_summaries e) = true
+  /\ forallb (fun ev => negb (bytes_eqb (to_snake (to_lower_camel (ev_name ev))) (bs "type"))) (e_events e) = true
+  /\ forallb (fun s => match s with
+                       | SOneof _ opts => forallb (fun u => negb (bytes_eqb (to_snake (uf_name u)) (bs "type"))) opts
+                       | _ => true end) (e_schemas e) = true
+  /\ bytes_eqb (response_name e) (bs "page") = false
+  /\ (match e_query e with Some q => q_events_in_get q | None => false end
+       && bytes_eqb (response_name e) (bs "events")) = false.
+Proof.
+  intros e H. unfold reserved_free in H.
+  repeat match type of H with
+         | (_ && _) = true => apply andb_true_iff in H; let H' := fresh "R" in destruct H as [H H']
+         end.
+  apply negb_true_iff in R0, R. repeat split; assumption.
 Qed.
 
 Theorem keys_clear_holds : forall e, in_quantifier e = true -> reserved_free e = true -> keys_clear e.
 Proof.
   intros e Hq Hr. split; [now apply in_quantifier_keys_nodup|]. intros k Hk Hin.
-  unfold reserved_free in Hr.
-  repeat match type of Hr with
-         | (_ && _) = true => apply andb_true_iff in Hr; let H' := fresh "R" in destruct Hr as [Hr H']
-         end.
+  destruct (reserved_free_parts e Hr) as [_ [R1 _]].
   rewrite forallb_forall in R1. specialize (R1 k Hk). apply negb_true_iff in R1.
   apply existsb_bytes_In in Hin. congruence.
 Qed.
